@@ -55,3 +55,53 @@ Theorem C05_toggle_frame : forall contains in_cube lik blob n_batch s d s', step
   shells s' = shells s /\ explored s' = explored s /\ n_like s' = n_like s /\ t_pts s' = t_pts s /\ t_from s' = t_from s.
 Proof. exact toggle_frame_abs. Qed.
 Print Assumptions C05_toggle_frame.
+
+(* ---- the control state a resume must carry: thresholds, update counters and the trigger (Shell2Ctl.v) ---- *)
+From Coq Require Import ZArith.
+Require Import NV.Base NV.Shell2Ctl NV.Shell2CtlProofs.
+
+(* the control layer only annotates the shell machine: its core component is a run of Shell2.step, so C01/C02/C10/C12
+   hold along every controlled history *)
+Theorem C05_control_core : forall contains in_cube lik blob n_batch vrank neg_inf cc evs c c',
+  crun contains in_cube lik blob n_batch vrank neg_inf cc c evs = Some c' ->
+  Shell2.run contains in_cube lik blob n_batch (core c) evs = Some (core c').
+Proof. exact crun_core. Qed.
+Print Assumptions C05_control_core.
+(* one threshold per shell, along every history *)
+Theorem C05_control_aligned : forall contains in_cube lik blob n_batch vrank neg_inf cc evs c c',
+  Aligned c -> crun contains in_cube lik blob n_batch vrank neg_inf cc c evs = Some c' -> Aligned c'.
+Proof. exact crun_aligned. Qed.
+Print Assumptions C05_control_aligned.
+(* the counters: reset by a bound attempt, advanced only by exploration batches, untouched by everything else
+   (in particular by sampling-phase batches, toggles and the end of exploration) *)
+Theorem C05_control_counters : forall contains in_cube lik blob n_batch vrank neg_inf cc c e c',
+  cstep contains in_cube lik blob n_batch vrank neg_inf cc c e = Some c' ->
+  match e with
+  | EvAddBoundOk _ => (shells (core c) <> [] -> nui c' = 0%Z /\ nli c' = 0) /\ (shells (core c) = [] -> nui c' = (- Z.of_nat (cc_nlive cc))%Z /\ nli c' = 0)
+  | EvAddBoundFail => nui c' = 0%Z /\ nli c' = 0
+  | EvAddSamples None _ vals => nli c' = nli c + n_batch /\ (nui c <= nui c' <= nui c + Z.of_nat (length vals))%Z
+  | _ => nui c' = nui c /\ nli c' = nli c
+  end.
+Proof. exact counters_step. Qed.
+Print Assumptions C05_control_counters.
+(* a bound is accepted only if some stored likelihood lies strictly below its threshold *)
+Theorem C05_control_zoom : forall contains in_cube lik blob n_batch vrank neg_inf cc c b c',
+  shells (core c) <> [] -> cstep contains in_cube lik blob n_batch vrank neg_inf cc c (EvAddBoundOk b) = Some c' ->
+  exists t, threshold vrank cc (core c) = Some t /\ all_above vrank (vrank t) (all_lls (core c)) = false /\ lmins c' = lmins c ++ [t].
+Proof. exact bound_zooms. Qed.
+Print Assumptions C05_control_zoom.
+(* a history cut into loop iterations whose bound attempts obey the trigger is a controlled history *)
+Theorem C05_control_iters : forall contains in_cube lik blob n_batch vrank neg_inf cc its c c',
+  crun_iters contains in_cube lik blob n_batch vrank neg_inf cc c its = Some c' ->
+  crun contains in_cube lik blob n_batch vrank neg_inf cc c (concat its) = Some c'.
+Proof. exact iters_trigger. Qed.
+Print Assumptions C05_control_iters.
+
+(* non-vacuity: the first bound of a run with n_live = 3 *)
+Example C05_control_example :
+  let cc := mkCC 3 2 10 1 in
+  match cstep (fun _ _ => true) (fun _ => true) (fun _ => 1%positive) (fun _ => 1%positive) 2 (fun _ => 0%Z) 1%positive cc cinit (EvAddBoundOk 1%positive) with
+  | Some c => lmins c = [1%positive] /\ nui c = (-3)%Z /\ Aligned c /\ trigger cc c = false
+  | None => False
+  end.
+Proof. vm_compute. repeat split. Qed.
